@@ -773,7 +773,7 @@ def _run(ctx):
 
     # ---------------- (a) direct: literals ----------------
     texts = []      # (stratum, text)
-    ints = interesting_ints(rng, 250 if quick else 1500, 1500 if quick else 6000)
+    ints = interesting_ints(rng, 250 if quick else 800, 1500 if quick else 3000)
     for v in ints:
         for base in (2, 8, 10, 16):
             t = lit_text(rng, v, base, us=False)
@@ -814,7 +814,7 @@ def _run(ctx):
 
     # ---------------- (a) direct: emission ----------------
     evals = set()
-    for v in interesting_ints(rng, 200 if quick else 1200, 800 if quick else 4000):
+    for v in interesting_ints(rng, 200 if quick else 600, 800 if quick else 2000):
         evals.update([v, -v])
     for c in (10 ** 13, 2 ** 31, M63, 2 ** 64):
         for d in (-2, -1, 0, 1, 2):
@@ -822,7 +822,7 @@ def _run(ctx):
     # the str() limit: 10^4300 and beyond raise; just below converts (slow in the model: thorough only)
     evals.update([10 ** 4300, -(10 ** 4300), 10 ** 4300 + 1, -(10 ** 4300) - 1])
     if not quick:
-        evals.update([10 ** 4300 - 1, -(10 ** 4300) + 1, 10 ** 4299, -(10 ** 4299)])
+        evals.update([10 ** 4300 - 1, -(10 ** 4300) + 1])
     evals.update([1 << 14290, -(1 << 14290), (1 << 20000) + 12345, -((1 << 20000) + 12345)])
     evals = sorted(evals)
 
